@@ -63,7 +63,7 @@ RULE = ("cases drawn from VERIF_SEED; a case fixes (cyclic?, n class in {2,3,4,5
 ASSUMPTIONS = [
     "the cyclic n=2 matrix is [[d0, s0+c],[s0+c, d1]] (sub-diagonal and corner occupy the same position), magnitude |s0|+|c|",
     "inputs are SPD as certified by a long-double bordered LDL^T of the original entries (positive pivots); systems failing that are counted (coverage.generated_not_spd) and not run",
-    "componentwise residuals carry an underflow floor 64*DBL_MIN*(1+sum_j|a_ij|)/min pivot ratio: errors of a few denormal ulps (x decaying below 2.2e-308) are invisible",
+    "componentwise residuals carry an underflow floor 64*DBL_MIN*(1+sum_j|a_ij|)/min pivot ratio (cyclic: times 1+|f|, f the Sherman-Morrison factor): errors of a few denormal ulps in intermediates (solutions decaying below 2.2e-308 away from a spike of b) are invisible",
     "cyclic solves are judged against the error scale of a Sherman-Morrison solve (measured excess over |A||x|+|b| logged as amp, at most AMP_CAP); an algorithm-independent bound is only claimed where amp is O(1)",
     "stencil-line matrices are rebuilt from the harness reference stencil (agreement with the library's operator is C03's subject); the smoothers' own solver objects are private and not harvested",
     "sampling: entry patterns, dimensions (other than 2..300 and 10000) and solve histories not generated are not covered",
